@@ -217,6 +217,7 @@ func (x *Exec) applyContract(f *frame, n *node, c *Contract, callee *ssa.Functio
 		if _, isIface := v.T.Underlying().(*types.Interface); isIface && c.Trusted {
 			// values produced by dependencies have dynamic types from outside the module
 			x.assume(TTrue, Lt(App("dyntype", SInt, v.C[0]), Num(0)), "external dynamic type")
+			x.assume(TTrue, Not(App("pkgerr", SBool, v.C[0])), "errors from dependencies are not the package's sentinels")
 		}
 		res = append(res, v)
 	}
@@ -237,6 +238,8 @@ func (x *Exec) applyContract(f *frame, n *node, c *Contract, callee *ssa.Functio
 	}
 	if c.Trusted {
 		x.note("assumed contract: " + c.Key)
+	} else if c.Unverified {
+		x.note("in-package contract used but not yet discharged: " + c.Key)
 	}
 	return tupleValue(res, rt), post
 }
@@ -294,6 +297,19 @@ func (x *Exec) havocOne(sc *specCtx, e ast.Expr, st *State) {
 					na := Fresh("havoc.elems", SArr(c.Sort))
 					setElemArr(st, sl.Elem(), c, v.C[0], na)
 				}
+				return
+			case id.Name == "chanstate":
+				v := sc.eval(call.Args[0])
+				ref := v.C[0]
+				et := chanElem(v.T)
+				for _, nm := range []string{chReg("len", v.T), chReg("head", v.T)} {
+					st.setRegion(nm, Store(st.region(nm, sArrII), ref, Fresh("havoc."+nm, SInt)))
+				}
+				for _, c := range Flatten(et) {
+					nm := "chan.q." + typeName(et) + c.Suffix
+					st.setRegion(nm, Store(st.region(nm, SArr(SArr(c.Sort))), ref, Fresh("havoc."+nm, SArr(c.Sort))))
+				}
+				st.setRegion(chReg("closed", v.T), Store(st.region(chReg("closed", v.T), SArr(SBool)), ref, Fresh("havoc.chan.closed", SBool)))
 				return
 			case id.Name == "region":
 				// region("name"): whole region by name
@@ -441,7 +457,7 @@ func (f *frame) builtin(b *ssa.Builtin, at ssa.Instruction, args []Value, n *nod
 		case *types.Basic:
 			return Value{C: []*Term{v.C[2]}}, st
 		case *types.Chan:
-			return Value{C: []*Term{x.chanLen(st, v.C[0])}}, st
+			return Value{C: []*Term{x.chanLen(st, v)}}, st
 		case *types.Map:
 			return Value{C: []*Term{Select(st.region("map.len", sArrII), v.C[0])}}, st
 		}
@@ -451,7 +467,7 @@ func (f *frame) builtin(b *ssa.Builtin, at ssa.Instruction, args []Value, n *nod
 		case *types.Slice:
 			return Value{C: []*Term{v.C[3]}}, st
 		case *types.Chan:
-			return Value{C: []*Term{Select(st.region("chan.cap", sArrII), v.C[0])}}, st
+			return Value{C: []*Term{Select(st.region(chReg("cap", v.T), sArrII), v.C[0])}}, st
 		}
 	case "append":
 		return x.appendBuiltin(st, args[0], args[1], at.(ssa.Value).Type(), pos), st
@@ -817,6 +833,9 @@ func (x *Exec) modRegions(e ast.Expr, cc *ssa.CallCommon, c *Contract) []string 
 			}
 			if id.Name == "elems" {
 				return []string{"elems."}
+			}
+			if id.Name == "chanstate" {
+				return []string{"chan."}
 			}
 			if id.Name == "region" {
 				return []string{strings.Trim(exprString(e.Args[0]), `"`)}
